@@ -213,6 +213,20 @@ def splice_body(em_obls, body, fspec, unit, fname, rw):
                 inv += '        decreases ' + ls['decreases'] + '\n'
             if out[k].text == 'for' and ls.get('range_incl'):
                 pass
+            if out[k].text == 'for' and ls.get('clone_elems'):
+                # R8b: consuming `for PAT in VEC {`  ->  `for __e in VEC.iter() { let PAT = __e.clone();`
+                j = k + 1
+                while not is_id(out[j], 'in'):
+                    if out[j].kind == 'punct' and out[j].text in OPEN:
+                        j = match_close(out, j)
+                    j += 1
+                pat = text_of(out[k + 1:j]).strip()
+                rw.rec('R8b', 'for %s in %s' % (pat, text_of(out[j + 1:bo]).strip()), 'for __e in %s.iter() { let %s = __e.clone();' % (text_of(out[j + 1:bo]).strip(), pat))
+                out[bo + 1:bo + 1] = [T('raw', ' let %s = __e%d.clone();' % (pat, ordinal), out[bo].start)]
+                out[bo:bo] = [T('raw', '.iter() ', out[bo].start)]
+                # strip trailing whitespace before .iter()
+                out[k + 1:j] = [T('raw', ' __e%d ' % ordinal, out[k].start)]
+                bo = find_body_open(out, k + 1)
             if out[k].text == 'for' and ls.get('iter'):
                 # for PAT in EXPR  ->  for PAT in it: EXPR
                 j = k + 1
@@ -223,6 +237,11 @@ def splice_body(em_obls, body, fspec, unit, fname, rw):
                     j += 1
                 out[j + 1:j + 1] = [T('raw', ' %s:' % ls['iter'], out[j].start)]
                 bo += 1
+            be_ = match_close(out, bo)
+            if ls.get('loop_end'):
+                out[be_:be_] = [T('raw', '\n' + '\n'.join(ls['loop_end']) + '\n', out[be_].start)]
+            if ls.get('loop_begin'):
+                out[bo + 1:bo + 1] = [T('raw', '\n' + '\n'.join(ls['loop_begin']) + '\n', out[bo].start)]
             out[bo:bo] = [T('raw', inv + '    ', out[bo].start)]
         body = out
     return body
